@@ -245,6 +245,9 @@ EXTREME_LITERALS = [
     "type(1 m)", "type(type)", "type()", "print()", "print(1, 2)", "assert()", "assert(1)", "assert_eq(1)", "assert_eq(1, 2, 3, 4)",
     "assert_eq(1 m, 1 s)", "assert_eq(1 m, 1 m, 1 s)", "assert_eq([1], [1], 1)", 'assert_eq("a", "a", 1)', "assert_eq(0.7, 2, 1)",
     "1 m == 1 s", "1 m < \"a\"", "true + 1", "\"a\" * 2", "[1] + [2]", "now() * 2", "now() - now() -> years", "ans", "_", "ans + 1", "_ _",
+    "fn vf_self(n) = if n <= 0 then 0 else foldl(vf_self, n - 1, [1])\nvf_self(3)", "fn vf_s2(x) = (if x > 0 then vf_s2 else abs)(x - 1)\nvf_s2(2)",
+    "fn vf_s3(xs) = if is_empty(xs) then 0 else sum(map(vf_s3, [tail(xs)]))\nvf_s3([1, 2])", "fn vf_s4(x) = [vf_s4]\nvf_s4(1)",
+    "fn vf_s5(x) = y where y = vf_s5", "fn vf_s6(f, x) = f(vf_s6, x)",
     "?", "??", "? + 1 m", "1 + ?", "let x: ? = 1", "…", "1 … 2", "...", "1 +\n2", "1\n+ 2", "(\n1\n)", "[\n1,\n2\n]", "fn f(\nx\n) = x",
 ]
 
